@@ -187,7 +187,7 @@ def std_impls_derived(ctx, pfx, adts):
                   why='the analysis reads `x.clone()` as a copy of x and `a == b` as structural equality; a hand-written impl (a clone that re-seeds, an equality that ignores a field, a Drop with effects) is outside what was analysed')
 
 
-def accessor_pure(ctx, pfx, b, field):
+def accessor_pure(ctx, pfx, b, field, mut=True):
     """`fn acc(&mut self) -> &mut F { &mut self.<field> }` and nothing else"""
     from .speclib import keyrepr
     from .vflow import Ref
@@ -199,7 +199,7 @@ def accessor_pure(ctx, pfx, b, field):
     evs = [e.op if e.op != 'call' else e.key for e in ev.vf.events]
     loops = len(ev.vf.loops)
     ok = ok_ret and not written and not evs and loops == 0
-    ctx.check(pfx + '.accessor', A, field, ok, expected='returns &mut self.%s; writes nothing, calls nothing' % field,
+    ctx.check(pfx + '.accessor', A, field, ok, expected='returns %sself.%s; writes nothing, calls nothing' % ('&mut ' if mut else '&', field),
               found='ret=%s writes=%s events=%s loops=%d' % (keyrepr(ret.place) if isinstance(ret, Ref) else type(ret).__name__, written, evs[:6], loops), sp=b['sp'],
               why='the runners reach the chains only through this accessor and the analysis treats it as the place self.%s: an accessor with side effects (re-syncing, resetting or re-seeding chains) changes every run' % field)
 
